@@ -250,6 +250,10 @@ def check(prog, rep):
 
     check_no_rollback(prog, rep)
     copy_protocol(prog, rep)
+    # nothing on the way is memoised on a key that does not determine the answer
+    from ..rules_own import memo_rule
+
+    memo_rule(prog, rep, rule="MEMO")
 
 
 VARIANTS = [
